@@ -48,7 +48,8 @@ CONSTANTS
     OpaqueByMode,           \* opaque xattr names follow the configured mode
     WhiteoutAttr,           \* whiteouts get entryToWhAttr (0/0 char device), not the raw file's attributes
     MemWhiteoutAttr,        \* ... also when Lookup finds the whiteout among the in-memory children
-    WriterDropsToc          \* eStargz writer drops a root entry named stargz.index.json
+    WriterDropsToc,         \* eStargz writer drops a root entry named stargz.index.json
+    HardLinkSharesInode     \* a hard link is served with the inode of its target (metadata readers map both to one id)
 
 VARIABLES
     isRoot, mode, src,      \* fixed per behaviour (chosen by Init)
@@ -59,6 +60,9 @@ core == <<isRoot, mode, src, cached, ents, mem, fetched, reported, sfheld>>
 vars == <<isRoot, mode, src, cached, ents, mem, fetched, reported, sfheld, last>>
 
 KindOf(n) == IF n = "d" THEN "dir" ELSE "reg"
+\* the one hard link of the model: the name "l" is a hard link to the regular file "a" of the same directory
+LinkName == "l"
+LinkTarget == "a"
 OwnXattrs == IF isRoot THEN {} ELSE {"user.foo"}     \* the driver gives sub-directories one xattr of their own
 XKeys == OpaqueKeys \cup {"user.foo", "user.none"}
 LayerDigest == "sha256:c07"                          \* replaced by the real value in traces
@@ -67,6 +71,10 @@ BlobSize == 10
 \* what the TOC lists
 Raw == IF WriterDropsToc /\ isRoot THEN src \ {TocName} ELSE src
 RawF == [n \in Raw |-> KindOf(n)]
+InoOf(n) == IF n = LinkName /\ HardLinkSharesInode THEN LinkTarget ELSE n
+Linked(n1, n2) == n1 # n2 /\ {n1, n2} = {LinkName, LinkTarget} /\ LinkName \in Raw
+\* link count of the inode named i (whiteouts, directories of the model and the state directory report 1)
+NlinkFor(i) == IF i = LinkTarget /\ LinkName \in Raw /\ HardLinkSharesInode THEN 2 ELSE 1
 
 ----------------------------------------------------------------------------
 (* node.readdir: the computation under "ForeachChild"                       *)
@@ -77,7 +85,7 @@ HideLM(n) == CASE LandmarkHiding = "root" -> isRoot /\ n \in Landmarks
 
 CodeNormal == {n \in Raw : ~HideLM(n) /\ ~HasWhPrefix(n)}
 CodeWhs    == {n \in Raw : ~HideLM(n) /\ HasWhPrefix(n) /\ n # Opq}
-NormalEnts == {[name |-> n, kind |-> KindOf(n), ino |-> n] : n \in CodeNormal}
+NormalEnts == {[name |-> n, kind |-> KindOf(n), ino |-> InoOf(n)] : n \in CodeNormal}
 WhEnts     == {[name |-> Target(w), kind |-> "chr", ino |-> w] :
                   w \in {v \in CodeWhs : ~RealWins \/ Target(v) \notin CodeNormal}}
 CodeListing == NormalEnts \cup WhEnts
@@ -103,7 +111,7 @@ Readdir ==
 HiddenName(n) == HasWhPrefix(n) \/ (isRoot /\ n \in Landmarks)
 
 Enoent(n) == [act |-> "Lookup", n |-> n, errno |-> "ENOENT", kind |-> "none", ino |-> "none", rdev |-> 0]
-Found(n, k, i) == [act |-> "Lookup", n |-> n, errno |-> "OK", kind |-> k, ino |-> i, rdev |-> 0]
+Found(n, k, i) == [act |-> "Lookup", n |-> n, errno |-> "OK", kind |-> k, ino |-> i, rdev |-> 0, nlink |-> NlinkFor(i)]
 WhKind(w) == IF WhiteoutAttr THEN "chr" ELSE KindOf(w)
 
 Lookup(n) ==
@@ -129,8 +137,8 @@ Lookup(n) ==
             /\ last' = Enoent(n)
             /\ UNCHANGED <<cached, ents, mem>>
        ELSE IF n \in Raw
-       THEN /\ last' = Found(n, KindOf(n), n)
-            /\ mem' = [x \in DOMAIN mem \cup {n} |-> IF x = n THEN [kind |-> KindOf(n), ino |-> n] ELSE mem[x]]
+       THEN /\ last' = Found(n, KindOf(n), InoOf(n))
+            /\ mem' = [x \in DOMAIN mem \cup {n} |-> IF x = n THEN [kind |-> KindOf(n), ino |-> InoOf(n)] ELSE mem[x]]
             /\ UNCHANGED <<cached, ents>>
        ELSE IF WhOf(n) \in Raw
        THEN /\ last' = Found(n, WhKind(WhOf(n)), WhOf(n))
@@ -152,7 +160,8 @@ Forget(n) ==
 \* Getattr of an in-memory child (node.Getattr / whiteout.Getattr)
 GetattrChild(n) ==
     /\ n \in DOMAIN mem
-    /\ last' = [act |-> "GetattrChild", n |-> n, errno |-> "OK", kind |-> mem[n].kind, ino |-> mem[n].ino, rdev |-> 0]
+    /\ last' = [act |-> "GetattrChild", n |-> n, errno |-> "OK", kind |-> mem[n].kind, ino |-> mem[n].ino, rdev |-> 0,
+                nlink |-> NlinkFor(mem[n].ino)]
     /\ UNCHANGED core
 
 \* Getattr of the directory itself
@@ -219,7 +228,8 @@ StatRead ==
     /\ UNCHANGED core
 
 ----------------------------------------------------------------------------
-Contents == {s \in SUBSET RawU : Cardinality(s) <= MaxChildren} \cup ExtraContents
+\* (a hard link needs its target)
+Contents == {s \in SUBSET RawU : Cardinality(s) <= MaxChildren /\ (LinkName \in s => LinkTarget \in s)} \cup ExtraContents
 
 Init ==
     /\ isRoot \in RootChoices
@@ -290,7 +300,10 @@ ListingIsTranslation ==
 ListedIffLookup ==
     last.act = "Lookup" => LookupAgrees(last, CurListing, isRoot)
 InodesUniqueStable ==
-    /\ \A e1, e2 \in CurListing : e1.ino = e2.ino => e1 = e2
+    \* one inode per name, shared exactly by the names that are hard links of each other
+    /\ \A e1, e2 \in CurListing : (e1.ino = e2.ino) <=> (e1 = e2 \/ Linked(e1.name, e2.name))
+    /\ (last.act \in {"Lookup", "GetattrChild"} /\ last.errno = "OK" /\ last.kind = "reg") =>
+           last.nlink = (IF LinkName \in Raw /\ last.n \in {LinkName, LinkTarget} THEN 2 ELSE 1)
     /\ \A n \in DOMAIN mem : n \in NamesOf(CurListing) => mem[n].ino = EntryOf(CurListing, n).ino
     /\ \A e \in CurListing : e.ino \notin {"state", "statfile"}
     /\ last.act = "GetattrChild" => (last.n \in NamesOf(CurListing) =>
